@@ -261,6 +261,12 @@ func genConc(prop string, seed uint64, run int, p concProfile, av avoid) *Case {
 				g.p.pMerge = 0.5
 				ops = append(ops, Op{Kind: "range", Yield: r.Chance(0.3), Limit: r.Range(1, 4), Writes: g.genWrites(r.Range(1, 2), false)})
 			case 6:
+				if fr := NewRng(seed, uint64(run), uint64(ti*64+i), 96); p.wInsert > 0 && !keyed && fr.Chance(0.25) {
+					// a point read positioned on an offset that holds no row: the one the next insert is
+					// handed, or one reserved by an insert in flight (own stream)
+					ops = append(ops, Op{Kind: "atfree", Target: Target{K: fr.Intn(8)}, Yield: true})
+					continue
+				}
 				ops = append(ops, Op{Kind: "at", Target: Target{Mode: "stable", K: r.Intn(64)}, Yield: true})
 			case 7:
 				var key string
